@@ -843,7 +843,53 @@ func verifyObjectViews(o at.Object, vals map[string]any, byKind map[Kind]map[str
 
 var unclassifiedOnce bool
 
+// checkUntypedViewsOfInnerLevels: the untyped views hand over the value Get returns - also where the list
+// stores an INNER embedding level of a derived structure (Get answers with the registered value then).
+func checkUntypedViewsOfInnerLevels(st *Stats) error {
+	dl := newDerivedList(2, true, 1, 2).(*DL2)
+	do := newDerivedObject(3, false, "a", 1).(*DO3)
+	l := at.NewList("x", dl.DL1, do.DO2, dl.DL1.List, 7)
+	n := l.Count()
+	want := make([]any, n)
+	for i := range want {
+		want[i] = l.Get(i)
+	}
+	check := func(what string, got []any) error {
+		if len(got) != n {
+			return errf("%s visited %d elements of %d (list storing inner embedding levels)", what, len(got), n)
+		}
+		for i := range got {
+			if !ifaceEq(got[i], want[i]) {
+				return errf("%s passed %T %p for element %d, Get(%d) returns %T %p (the list stores an inner embedding level of a derived structure)", what, got[i], got[i], i, i, want[i], want[i])
+			}
+		}
+		return nil
+	}
+	var a, b, c2, d, e, f []any
+	l.ForEach(func(i int, x any) { a = append(a, x) })
+	l.ForEachValue(func(x any) { b = append(b, x) })
+	l.Map(func(i int, x any) any { c2 = append(c2, x); return nil })
+	l.MapValues(func(x any) any { d = append(d, x); return nil })
+	kept := l.Filter(func(x any) bool { e = append(e, x); return true })
+	l.Reduce(0, func(acc any, x any) any { f = append(f, x); return acc })
+	for _, p := range []struct {
+		what string
+		got  []any
+	}{{"ForEach", a}, {"ForEachValue", b}, {"Map", c2}, {"MapValues", d}, {"Filter", e}, {"Reduce", f}, {"the result of Filter", kept.Slice()}} {
+		if err := check(p.what, p.got); err != nil {
+			return err
+		}
+	}
+	st.Count("inner_levels_stored")
+	return nil
+}
+
 func CheckC14(c *C14Case, st *Stats) error {
+	if c.Derived {
+		if err := checkUntypedViewsOfInnerLevels(st); err != nil {
+			return err
+		}
+	}
 	nonFinite = c.NonFinite
 	defer func() { nonFinite = false }()
 	if !unclassifiedOnce {
